@@ -555,6 +555,19 @@ impl Profile {
                 p.proposals = 20;
                 p.max_log = 60;
             }
+            "s_jointsplit" => {
+                p.ids = vec![1, 2, 3, 4, 5];
+                p.voters = vec![1, 2, 3];
+                p.learners = vec![4, 5];
+                p.script = "joint_lazy_split".into();
+                p.joint = true;
+                p.w_crash = 0;
+                p.w_partition = 0;
+                p.w_drop = 0;
+                p.w_dup = 1;
+                p.proposals = 20;
+                p.max_log = 60;
+            }
             "leaseread" => {
                 p.check_quorum = true;
                 p.lease_read = true;
@@ -2844,6 +2857,60 @@ impl Sched {
                     self.proposals_left = keep;
                     self.run_steps(cl, out, 120);
                 }
+            }
+            "joint_lazy_split" => {
+                // voters {l, o1, o2}, learners {4, 5}; an explicit joint change makes {l, 4, 5} the incoming voters. The new
+                // members apply it at once, the old ones lazily; then the new members are cut off together, one of them
+                // stands for election, the old side commits one more entry whose commit notice is delayed
+                let l = match self.until_leader(cl, out, 400) {
+                    Some(l) => l,
+                    None => return,
+                };
+                let keep = std::mem::replace(&mut self.proposals_left, 0);
+                let keepc = std::mem::replace(&mut self.conf_left, 0);
+                let olds: Vec<u64> = self.prof.voters.iter().copied().filter(|x| *x != l).collect();
+                let news: Vec<u64> = self.prof.learners.clone();
+                if olds.len() != 2 || news.len() != 2 {
+                    return;
+                }
+                let (o1, o2, n1, n2) = (olds[0], olds[1], news[0], news[1]);
+                let ids2 = ids.clone();
+                self.run_until(cl, out, 300, |cl| {
+                    ids2.iter().all(|n| {
+                        let a = &cl.nodes[cl.slot(*n)];
+                        a.raw.as_ref().map_or(false, |r| r.raft.raft_log.applied == Self::last_of(cl, l) && Self::last_of(cl, *n) == Self::last_of(cl, l)) && a.app.outstanding.is_none()
+                    })
+                });
+                self.frozen = vec![(l, "Apply"), (o1, "Apply"), (o2, "Apply")];
+                let ch = vec![
+                    ChV { t: "V".into(), id: n1 },
+                    ChV { t: "V".into(), id: n2 },
+                    ChV { t: "R".into(), id: o1 },
+                    ChV { t: "R".into(), id: o2 },
+                ];
+                self.idle_then(cl, out, l, Choice::ProposeConf { n: l, v1: false, tr: "E".into(), ch });
+                let joint = self.run_until(cl, out, 300, |cl| {
+                    [n1, n2].iter().all(|n| cl.nodes[cl.slot(*n)].raw.as_ref().map_or(false, |r| !r.raft.prs().conf().voters().verif_halves().1.is_empty()))
+                });
+                if joint {
+                    self.isolate(&[n1, n2], &ids);
+                    self.idle_then(cl, out, n1, Choice::Campaign { n: n1 });
+                    self.run_steps(cl, out, 60);
+                    // the old side commits one more entry; the old followers do not hear that it is committed
+                    let p = self.payload();
+                    self.idle_then(cl, out, l, Choice::Propose { n: l, p });
+                    self.run_until(cl, out, 120, |cl| Self::last_of(cl, o1) == Self::last_of(cl, l) && Self::last_of(cl, o2) == Self::last_of(cl, l));
+                    self.hold_from = vec![(l, o1, "App".into()), (l, o1, "HB".into()), (l, o2, "App".into()), (l, o2, "HB".into())];
+                    self.run_until(cl, out, 120, |cl| Self::committed_of(cl, l) == Self::last_of(cl, l));
+                    // the old leader is cut off; everybody else is connected again
+                    self.hold_from.clear();
+                    self.isolate(&[l], &ids);
+                    self.run_steps(cl, out, 200);
+                }
+                self.clear_script_controls();
+                self.proposals_left = keep.max(2);
+                self.conf_left = keepc;
+                self.run_steps(cl, out, 200);
             }
             "conf_mix" => {
                 let _ = self.until_leader(cl, out, 400);
